@@ -340,6 +340,20 @@ impl Gen {
             }
         }
         if self.edge_ids {
+            // result ids stay pairwise different: a sequential id that coincides with an extreme value
+            // handed out earlier (possible since the ids may start just below a boundary) is skipped
+            loop {
+                let v = self.fresh_edge_sequential(cs);
+                if !self.edge_used.contains(&v) {
+                    self.edge_used.push(v);
+                    return v;
+                }
+            }
+        }
+        self.fresh()
+    }
+    fn fresh_edge_sequential(&mut self, cs: &mut Cs) -> u32 {
+        if self.edge_ids {
             let (a, c) = *self.perm.get_or_insert_with(|| if cs.bool() { (1, 0) } else { (1 + cs.below(60) as u32, cs.below(61) as u32) });
             // one module in three hands out its ids from just below a power of two or of ten, so that
             // they straddle it densely
